@@ -81,10 +81,14 @@ impl DecodeMessage for AttributeProto {
                     msg.t = Some(TensorProto::decode_field(&mut field)?);
                 }
                 Self::FLOATS => {
-                    msg.floats.push(field.get_float()?);
+                    for float in field.read_repeated_float()? {
+                        msg.floats.push(float?);
+                    }
                 }
                 Self::INTS => {
-                    msg.ints.push(field.get_int64()?);
+                    for int in field.read_repeated_int64()? {
+                        msg.ints.push(int?);
+                    }
                 }
                 Self::STRINGS => {
                     msg.strings.push(field.read_string()?);
@@ -212,7 +216,9 @@ impl DecodeMessage for TensorProto {
         while let Some(mut field) = fields.next()? {
             match field.number() {
                 Self::DIMS => {
-                    msg.dims.push(field.get_int64()?);
+                    for dim in field.read_repeated_int64()? {
+                        msg.dims.push(dim?);
+                    }
                 }
                 Self::DATA_TYPE => {
                     msg.data_type = Some(DataType(field.get_enum()?));
